@@ -395,7 +395,8 @@ def _match(S, N):
         except TypeError:
             pass
         n = N.edges.get(VAR, None)
-        if n:
+        # a variable needs a subterm to bind: at the end of the term there is none
+        if n and S.current is not END:
             restore_state_flag = False
             matches = matches + (S.term,)
             S.skip()
